@@ -86,6 +86,11 @@ def timestamp_to_sf_struct(ts: pa.Array | pa.ChunkedArray) -> pa.Array:
     subsecond_us = pc.subtract(ts.cast(pa.int64()), tsa_without_us.cast(pa.int64()))  # type: ignore
     fraction = pc.multiply(subsecond_us, 1_000).cast(pa.int32())  # type: ignore
 
+    # NULL timestamps are NULL structs (whose non-nullable children need a value)
+    mask = ts.is_null()
+    epoch = pc.fill_null(epoch, 0)
+    fraction = pc.fill_null(fraction, 0)
+
     if ts.type.tz:
         assert ts.type.tz == "UTC", f"Timezone {ts.type.tz} not yet supported"
         timezone = pa.array([1440] * len(ts), type=pa.int32())
@@ -97,6 +102,7 @@ def timestamp_to_sf_struct(ts: pa.Array | pa.ChunkedArray) -> pa.Array:
                 pa.field("fraction", nullable=False, type=pa.int32()),
                 pa.field("timezone", nullable=False, type=pa.int32()),
             ],
+            mask=mask,
         )
     else:
         return pa.StructArray.from_arrays(
@@ -105,4 +111,5 @@ def timestamp_to_sf_struct(ts: pa.Array | pa.ChunkedArray) -> pa.Array:
                 pa.field("epoch", nullable=False, type=pa.int64()),
                 pa.field("fraction", nullable=False, type=pa.int32()),
             ],
+            mask=mask,
         )
